@@ -18,6 +18,8 @@ def prune_kwargs(case, step):
     kw['min_npix'] = num // den if num % den == 0 else num / float(den)
     fs = impl.criteria_functions({'scale': case.get('scale', 0), 'den': case.get('den'), 'shape': case['shape'],
                                   'crit': step.get('crit', [])})
+    if fs and step.get('crit_counting'):
+        fs = [(lambda f_: (lambda *a_, **k_: (2 if f_(*a_, **k_) else 0)))(f_) for f_ in fs]
     if fs:
         kw['is_independent'] = fs[0] if (len(fs) == 1 and step.get('crit_single')) else fs
     return kw
@@ -49,8 +51,12 @@ def rand_prune_step(rng, case, cur_delta=0, cur_npix=(0, 1)):
         else:
             n = gen.nprod(case['shape'])
             step['crit'] = [['seeds', sorted(rng.sample(range(n), rng.randint(1, min(3, n))))]]
-        if rng.random() < 0.5:
+        r2 = rng.random()
+        if r2 < 0.5:
             step['crit_single'] = True
+        elif r2 < 0.8:
+            # the criterion answers with a count (2 / 0) instead of True / False: any non-zero count means yes
+            step['crit_counting'] = True
     return step
 
 
